@@ -93,6 +93,9 @@ def run(ctx):
     # ---------------- corr-S: traces and states
     n_prog = 400 if quick else 8000
     progs = {'p%d' % i: gen_program(rng, dict(hw=True, bait=(i % 3 == 0), inline=(i % 2 == 1), signed=False, shorts=(i % 2 == 0), max_stmts=8)) for i in range(n_prog)}
+    # the fixed enumeration of register / hardware-statement shapes (tools/lib/gen_c.py, family E)
+    from lib.gen_c import directed_programs
+    progs.update({k: p for k, p in directed_programs().items() if k.startswith('E_')})
     viol = []
     stats = {'agree': 0, 'undecided': 0, 'unsupported': 0, 'programs': 0, 'events': 0}
     marked_bad = []
